@@ -2,23 +2,39 @@
 (***************************************************************************)
 (* C03 / LZWDecode.  The decoder of pdfminer/lzw.py as a machine (one       *)
 (* action per readbits() call and per branch of feed()), next to a writer   *)
-(* relation taken from the standard: greedy LZW with early change, a        *)
-(* clear-table code first, again when the table is full, and optionally at  *)
-(* one more place; EOD last (or left out).  TLC enumerates every input      *)
-(* string over Alpha symbols up to MaxLen x every optional clear position,  *)
-(* and checks that the decoder gives the input back, with the width         *)
-(* schedule of the standard in force at every code.                         *)
+(* relation taken from the standard (ISO 32000-1 7.4.4, table 8):           *)
+(*   greedy LZW; a clear-table code first; /EarlyChange ec in {0, 1}        *)
+(*   decides when code widths grow; when the table is full the writer       *)
+(*   clears at once (defer = 0) or keeps writing MaxBits-wide codes from    *)
+(*   the frozen table for `defer` more codes (never clearing if the input   *)
+(*   ends first) - both are legal; optionally one more clear anywhere; EOD  *)
+(*   last (or left out); after EOD the stream may carry `trail` more bytes  *)
+(*   that a reader must not look at (EOD ends the data).                    *)
+(* TLC enumerates every input string over Alpha symbols up to MaxLen x      *)
+(* every writer choice and checks that the decoder gives the input back,    *)
+(* with the width schedule of the standard in force at every code.          *)
 (*                                                                          *)
 (* "Bytes" are ByteBits wide (ByteBits < MinBits as 8 < 9), so that the     *)
 (* zero padding after the last code can never be read as a code, exactly    *)
 (* as at the real constants.                                                *)
+(*                                                                          *)
+(* Dev - named deviations of the code from the standard:                    *)
+(*   "LzwEarlyChangeIgnored"  PDFStream.decode does not hand /EarlyChange   *)
+(*                            to the decoder, which always switches early   *)
+(*   "LzwEodContinues"        feed() does nothing on EOD and run() goes on  *)
+(*                            reading codes from whatever follows           *)
 (***************************************************************************)
 EXTENDS LZWOps, FiniteSets, TLC, Json
 
 CONSTANTS MaxLen,       \* inputs are Prefix \o s for every s of length 0..MaxLen over 0..Alpha-1
           Prefix,       \* fixed head of every input (<<>> in the plain instances; a string that fills
                         \* most of the table in the instance that reaches width switch AND table-full)
-          EODs          \* subset of BOOLEAN: does the writer end with the EOD code
+          EODs,         \* subset of BOOLEAN: does the writer end with the EOD code
+          ECs,          \* subset of {0, 1}: the writer's /EarlyChange
+          Defers,       \* codes written from a full table before the deferred clear (0 = clear at once)
+          Trails,       \* numbers of bytes after EOD
+          TrailBytes,   \* their values
+          Dev
 
 Pow2(n) == 2^n
 Singles == [i \in 1..Alpha |-> <<i - 1>>]
@@ -28,33 +44,41 @@ InitTab == Singles \o << <<>>, <<>> >>          \* entries Alpha, Alpha+1 are ne
 InTab(tab, w)  == \E k \in 1..Len(tab) : tab[k] = w /\ w # <<>>
 CodeOf(tab, w) == (CHOOSE k \in 1..Len(tab) : tab[k] = w) - 1
 \* width of the next code when n codes have been written since the last clear-table code:
-\* the decoder then holds FirstFree + max(n-1, 0) entries
-Wd(n) == WidthFor(FirstFree + (IF n = 0 THEN 0 ELSE n - 1))
+\* the decoder then holds FirstFree + max(n-1, 0) entries (it never counts beyond a full table's width)
+Wd(n, ec) == WidthForEC(FirstFree + (IF n = 0 THEN 0 ELSE n - 1), ec)
 
 \* greedy parse of x from symbol i on; w = phrase matched so far; tab = writer's table;
-\* n = codes since the last clear; xc = input position of the optional extra clear (0 = none)
-RECURSIVE EncGo(_, _, _, _, _, _, _)
-EncGo(x, i, w, tab, n, acc, xc) ==
+\* n = codes since the last clear; xc = input position of the optional extra clear (0 = none);
+\* left = -1 while the table has room, otherwise the codes still to be written before the deferred clear
+RECURSIVE EncGo(_, _, _, _, _, _, _, _, _, _)
+EncGo(x, i, w, tab, n, acc, xc, ec, defer, left) ==
   IF i = Len(x)
   THEN IF w = <<>> THEN [acc |-> acc, n |-> n]
-       ELSE [acc |-> Append(acc, <<CodeOf(tab, w), Wd(n)>>), n |-> n + 1]
+       ELSE [acc |-> Append(acc, <<CodeOf(tab, w), Wd(n, ec)>>), n |-> n + 1]
   ELSE IF i = xc /\ w # <<>>
   THEN \* optional clear: flush the phrase, clear, start over
        EncGo(x, i, <<>>, InitTab, 0,
-             acc \o << <<CodeOf(tab, w), Wd(n)>>, <<ClearCode, Wd(n + 1)>> >>, 0)
+             acc \o << <<CodeOf(tab, w), Wd(n, ec)>>, <<ClearCode, Wd(n + 1, ec)>> >>, 0, ec, defer, -1)
   ELSE LET b  == x[i + 1]
            wc == Append(w, b) IN
-       IF InTab(tab, wc) THEN EncGo(x, i + 1, wc, tab, n, acc, xc)
-       ELSE LET acc1 == Append(acc, <<CodeOf(tab, w), Wd(n)>>)
-                tab1 == Append(tab, wc) IN
-            IF Len(tab1) = TableMax
-            THEN \* table full: clear-table, written at the width then in force
-                 EncGo(x, i + 1, <<b>>, InitTab, 0, Append(acc1, <<ClearCode, Wd(n + 1)>>), xc)
-            ELSE EncGo(x, i + 1, <<b>>, tab1, n + 1, acc1, xc)
+       IF InTab(tab, wc) THEN EncGo(x, i + 1, wc, tab, n, acc, xc, ec, defer, left)
+       ELSE LET acc1 == Append(acc, <<CodeOf(tab, w), Wd(n, ec)>>)
+                clr  == Append(acc1, <<ClearCode, Wd(n + 1, ec)>>) IN
+            IF left = -1
+            THEN LET tab1 == Append(tab, wc) IN
+                 IF Len(tab1) < TableMax THEN EncGo(x, i + 1, <<b>>, tab1, n + 1, acc1, xc, ec, defer, -1)
+                 ELSE IF defer = 0
+                 THEN \* table full: clear-table, written at the width then in force
+                      EncGo(x, i + 1, <<b>>, InitTab, 0, clr, xc, ec, defer, -1)
+                 ELSE \* table full, clear deferred: go on with the frozen table
+                      EncGo(x, i + 1, <<b>>, tab1, n + 1, acc1, xc, ec, defer, defer)
+            ELSE \* frozen table: nothing is added
+                 IF left = 1 THEN EncGo(x, i + 1, <<b>>, InitTab, 0, clr, xc, ec, defer, -1)
+                 ELSE EncGo(x, i + 1, <<b>>, tab, n + 1, acc1, xc, ec, defer, left - 1)
 
-Codes(x, xc, eod) ==
-  LET r == EncGo(x, 0, <<>>, InitTab, 0, << <<ClearCode, MinBits>> >>, xc) IN
-  IF eod THEN Append(r.acc, <<EODCode, Wd(r.n)>>) ELSE r.acc
+Codes(x, xc, eod, ec, defer) ==
+  LET r == EncGo(x, 0, <<>>, InitTab, 0, << <<ClearCode, MinBits>> >>, xc, ec, defer, -1) IN
+  IF eod THEN Append(r.acc, <<EODCode, Wd(r.n, ec)>>) ELSE r.acc
 
 \* most significant bit first
 RECURSIVE BitsOf(_, _)
@@ -67,24 +91,30 @@ Pack(bs) ==
   LET pad == (ByteBits - (Len(bs) % ByteBits)) % ByteBits
       b2  == bs \o [k \in 1..pad |-> 0] IN
   [k \in 1..(Len(b2) \div ByteBits) |-> ValOf(SubSeq(b2, (k - 1) * ByteBits + 1, k * ByteBits))]
-Encode(x, xc, eod) == Pack(AllBits(Codes(x, xc, eod)))
+Encode(x, xc, eod, ec, defer) == Pack(AllBits(Codes(x, xc, eod, ec, defer)))
 
 \* ======================================================================== decoder (as coded)
-VARIABLES x, xc, eod,          \* the writer's choices
+VARIABLES x, xc, eod, ec, defer, trail,   \* the writer's choices
           enc,                 \* the encoded "bytes"
           inpos, buff, bpos,   \* LZWDecoder.fp position, .buff, .bpos
-          nbits, table, prev,  \* .nbits, .table, .prevbuf  (prev = "none" before the first clear)
+          nbits, table, prev,  \* .nbits, .table, .prevbuf  (prev = <<-1>> before the first clear)
           code, pc, out, err,
-          hist                 \* per code: <<code, nbits used, kind, bytes put out>>  (for the replay)
-vars == <<x, xc, eod, enc, inpos, buff, bpos, nbits, table, prev, code, pc, out, err, hist>>
+          hist,                \* per code: <<code, nbits used, kind, bytes put out>>  (for the replay)
+          trig                 \* deviations that made a difference in this behaviour
+vars == <<x, xc, eod, ec, defer, trail, enc, inpos, buff, bpos, nbits, table, prev, code, pc, out, err, hist, trig>>
 
 Inputs == {Prefix \o s : s \in UNION {[1..m -> 0..(Alpha - 1)] : m \in 0..MaxLen}}
 
 Init == /\ x \in Inputs /\ xc \in 0..(IF Len(x) = 0 THEN 0 ELSE Len(x) - 1) /\ eod \in EODs
-        /\ enc = Encode(x, xc, eod)
+        /\ ec \in ECs /\ defer \in Defers
+        /\ trail \in IF eod THEN {<<>>} \cup {[k \in 1..m |-> b] : m \in Trails \ {0}, b \in TrailBytes} ELSE {<<>>}
+        /\ enc = Encode(x, xc, eod, ec, defer) \o trail
         /\ inpos = 0 /\ buff = 0 /\ bpos = ByteBits /\ nbits = MinBits
         /\ table = <<>> /\ prev = <<-1>> /\ code = -1
-        /\ pc = "read" /\ out = <<>> /\ err = "none" /\ hist = <<>>
+        /\ pc = "read" /\ out = <<>> /\ err = "none" /\ hist = <<>> /\ trig = {}
+
+\* the /EarlyChange value the decoder works with
+REC == IF "LzwEarlyChangeIgnored" \in Dev THEN 1 ELSE ec
 
 \* readbits(bits): the loop over the remaining bits of buff and further bytes of fp
 RECURSIVE RB(_, _, _, _, _)
@@ -96,33 +126,42 @@ RB(bits, v, ip, bf, bp) ==
   ELSE IF ip >= Len(enc) THEN [v |-> 0, ip |-> ip, bf |-> bf, bp |-> bp, eof |-> TRUE]
   ELSE RB(bits - r, v * Pow2(r) + (bf % Pow2(r)), ip + 1, enc[ip + 1], 0)
 
+Writer == UNCHANGED <<x, xc, eod, ec, defer, trail, enc>>
+
 ARead == /\ pc = "read"
          /\ LET r == RB(nbits, 0, inpos, buff, bpos) IN
               IF r.eof THEN /\ pc' = "done" /\ UNCHANGED <<code, inpos, buff, bpos>>
               ELSE /\ pc' = "feed" /\ code' = r.v /\ inpos' = r.ip /\ buff' = r.bf /\ bpos' = r.bp
-         /\ UNCHANGED <<x, xc, eod, enc, nbits, table, prev, out, err, hist>>
+         /\ Writer /\ UNCHANGED <<nbits, table, prev, out, err, hist, trig>>
 
 K == Kind(code, Len(table), prev = <<>> \/ prev = <<-1>>)
 Fed(kind, n) == hist' = Append(hist, <<code, nbits, kind, n>>)
-Keep == UNCHANGED <<x, xc, eod, enc, inpos, buff, bpos, code>>
+Keep == Writer /\ UNCHANGED <<inpos, buff, bpos, code>>
 
 DoClear == /\ pc = "feed" /\ K = "clear"
-          /\ table' = InitTab /\ prev' = <<>> /\ nbits' = MinBits /\ pc' = "read"
-          /\ Fed("clear", 0) /\ Keep /\ UNCHANGED <<out, err>>
+           /\ table' = InitTab /\ prev' = <<>> /\ nbits' = MinBits /\ pc' = "read"
+           /\ Fed("clear", 0) /\ Keep /\ UNCHANGED <<out, err, trig>>
 
 AClear      == hist = <<>> /\ DoClear          \* the clear-table code every stream starts with
-AClearAgain == hist # <<>> /\ DoClear          \* table full, or the writer's optional clear
+AClearAgain == hist # <<>> /\ DoClear          \* table full (at once or deferred), or the writer's optional clear
 
-\* as coded the decoder does not stop at EOD; what follows is padding shorter than a code
+\* EOD ends the data; as coded (LzwEodContinues) feed() passes and run() keeps reading
 AEOD == /\ pc = "feed" /\ K = "eod"
-        /\ pc' = "read" /\ Fed("eod", 0) /\ Keep /\ UNCHANGED <<table, prev, nbits, out, err>>
+        /\ IF "LzwEodContinues" \in Dev
+           THEN pc' = "read" /\ trig' = trig \cup (IF trail # <<>> THEN {"LzwEodContinues"} ELSE {})
+           ELSE pc' = "done" /\ trig' = trig
+        /\ Fed("eod", 0) /\ Keep /\ UNCHANGED <<table, prev, nbits, out, err>>
 
 AFirst == /\ pc = "feed" /\ K = "first"
           /\ prev' = table[code + 1] /\ out' = out \o table[code + 1] /\ pc' = "read"
-          /\ Fed("first", Len(table[code + 1])) /\ Keep /\ UNCHANGED <<table, nbits, err>>
+          /\ Fed("first", Len(table[code + 1])) /\ Keep /\ UNCHANGED <<table, nbits, err, trig>>
 
+\* as coded the table keeps growing even when MaxBits-wide codes can no longer name the new entries
 Grow(e, o) == /\ table' = Append(table, e)
-              /\ nbits' = Bump(Len(table) + 1, nbits)
+              /\ nbits' = BumpEC(Len(table) + 1, nbits, REC)
+              /\ trig' = trig \cup (IF BumpEC(Len(table) + 1, nbits, REC) # BumpEC(Len(table) + 1, nbits, ec)
+                                      \/ nbits # WidthForEC(Len(table), ec)
+                                    THEN {"LzwEarlyChangeIgnored"} ELSE {})
               /\ prev' = o /\ out' = out \o o /\ pc' = "read"
 
 AKnown == /\ pc = "feed" /\ K = "known"
@@ -135,7 +174,7 @@ AKwKwK == /\ pc = "feed" /\ K = "kwkwk"
 
 \* CorruptDataError ends the decoding silently; an unusable first code raises IndexError
 ACorrupt == /\ pc = "feed" /\ K \in {"corrupt", "indexerror"}
-            /\ pc' = "done" /\ err' = K /\ Fed(K, 0) /\ Keep /\ UNCHANGED <<table, prev, nbits, out>>
+            /\ pc' = "done" /\ err' = K /\ Fed(K, 0) /\ Keep /\ UNCHANGED <<table, prev, nbits, out, trig>>
 
 Next == ARead \/ AClear \/ AClearAgain \/ AEOD \/ AFirst \/ AKnown \/ AKwKwK \/ ACorrupt
 Spec == Init /\ [][Next]_vars
@@ -143,14 +182,17 @@ Spec == Init /\ [][Next]_vars
 \* ======================================================================== C03
 \* the decoder gives back exactly what the writer encoded
 Inverts == pc = "done" => (out = x /\ err = "none")
+\* ... with the deviations switched on: unless one of them made a difference
+InvertsUnlessDev == pc = "done" => ((out = x /\ err = "none") \/ trig # {})
 \* what has been put out is always a prefix of the input
 PrefixOK == Len(out) <= Len(x) /\ out = SubSeq(x, 1, Len(out))
-\* the width in force is the one the standard prescribes for the current table length
-WidthSwitchOK == (pc = "read" /\ Len(table) >= FirstFree) => nbits = WidthFor(Len(table))
-TableBound == Len(table) <= TableMax
+\* the width in force is the one the standard prescribes for the current table length and /EarlyChange
+WidthSwitchOK == (pc = "read" /\ Len(table) >= FirstFree) => nbits = WidthForEC(Len(table), ec)
+\* a writer that clears on time never makes the table outgrow the code space
+TableBound == defer = 0 => Len(table) <= TableMax
 NoError == err = "none"
 
 EmitTerminal ==
-  pc = "done" => PrintT("@@" \o ToJson([x |-> x, xc |-> xc, eod |-> eod, enc |-> enc, h |-> hist,
-                                        o |-> out, e |-> err]))
+  pc = "done" => PrintT("@@" \o ToJson([x |-> x, xc |-> xc, eod |-> eod, ec |-> ec, df |-> defer, tr |-> trail,
+                                        enc |-> enc, h |-> hist, o |-> out, e |-> err, trig |-> trig]))
 =============================================================================
